@@ -120,8 +120,97 @@ fn one(rep: &mut Report, frags: &[Vec<Vec<u8>>], class: &str, table: &mut HashMa
     }
 }
 
+/// The digest / MAC adapters the backends pass to pre_auth_encode are private; their only visible
+/// effect is the tag or signature. For every backend, tokens whose message, footer and assertion
+/// take every length of the fragment grid (incl. 0 and lengths above any plausible internal buffer)
+/// are compared with the reference model, whose PAE is the independent encoder above.
+fn adapters<B: crate::backend::Backend, P: crate::prims::Prims>(opts: &Opts, rep: &mut Report) {
+    use crate::backend::*;
+    use crate::refimpl as r;
+    if !opts.wants_backend(B::NAME) {
+        return;
+    }
+    const LENS: &[usize] = &[0, 1, 7, 8, 9, 63, 64, 65, 127, 128, 129, 255, 256, 257, 600, 5000];
+    let stream = format!("c15.adapters.{}", B::NAME);
+    let mut idx = 0u64;
+    let mut krng = Rng::derive(opts.seed, &stream, 0);
+    let sk_raw = B::gen_secret(&mut krng);
+    let kp = KeyPair::<B>::from_raw(Purp::Public, &sk_raw).expect("key");
+    let pk_raw = kp.raw().1;
+    for &ml in LENS {
+        for &fl in LENS {
+            for &al in if B::HAS_AAD { LENS } else { &[0usize][..] } {
+                idx += 1;
+                if !opts.mine_sys(idx) {
+                    continue;
+                }
+                // thin out the cube: full pairs on two axes, sampled on the third
+                if B::HAS_AAD && (ml + fl + al) % 3 != 0 && ml != 0 && fl != 0 && al != 0 {
+                    continue;
+                }
+                if B::VER == 1 && (idx % 4 != 0) {
+                    continue; // RSA signing is slow
+                }
+                let mut rng = Rng::derive(opts.seed, &stream, idx);
+                let (msg, footer, aad) = (rng.bytes(ml), rng.bytes(fl), rng.bytes(al));
+                let class = format!("{}.adapter-through-tag", B::NAME);
+                rep.case(&class, fnv_parts(&[B::NAME.as_bytes(), &msg, &footer, &aad]), true);
+                let detail = |what: &str| json!({"backend": B::NAME, "message_len": ml, "footer_len": fl, "assertion_len": al, "what": what});
+                // local: whole token against the reference
+                let key: [u8; 32] = rng.arr();
+                let nonce = rng.bytes(B::LOCAL_NONCE);
+                let kl = KeyPair::<B>::Local(local_key::<B>(&key));
+                let want = join_token(&kl.header(), &r::local_seal::<P>(B::VER, &key, &nonce, &msg, &footer, &aad), &footer);
+                match guard(|| kl.seal_with_nonce(&nonce, &msg, &footer, &aad)) {
+                    Ok(Ok(t)) if t == want => {}
+                    Ok(Ok(_)) => rep.violation(&format!("C15|{}|local|mac-adapter-saw-different-bytes", B::NAME), detail("local token tag differs from the tag over the specification's PAE")),
+                    _ => rep.violation(&format!("C15|{}|local|seal-failed", B::NAME), detail("seal failed")),
+                }
+                match guard(|| kl.open(&want, &aad)) {
+                    Ok(Ok((m, _))) if m == msg => {}
+                    _ => rep.violation(&format!("C15|{}|local|mac-adapter-saw-different-bytes:open", B::NAME), detail("reference-built token rejected: the verifying side hashed something else")),
+                }
+                // public: signature over the specification's PAE
+                match guard(|| kp.seal(&msg, &footer, &aad)) {
+                    Ok(Ok(t)) => {
+                        let (_, body, f) = split_token(&t);
+                        if r::public_verify::<P>(B::VER, &pk_raw, &body, &f, &aad).as_deref() != Some(&msg[..]) {
+                            rep.violation(&format!("C15|{}|public|digest-adapter-saw-different-bytes", B::NAME), detail("signature does not verify over the specification's PAE"));
+                        }
+                    }
+                    _ => rep.violation(&format!("C15|{}|public|sign-failed", B::NAME), detail("sign failed")),
+                }
+                rep.sample_class(&class, 1, || detail("tag and signature are over exactly the specification's PAE"));
+            }
+        }
+    }
+}
+
 pub fn run(opts: &Opts) {
     let mut rep = Report::new("C15");
+    if opts.wants_part("adapters") {
+        use crate::backend::*;
+        use crate::prims::Rc;
+        #[cfg(feature = "ffi")]
+        {
+            use crate::prims::Ffi;
+            adapters::<V1, Ffi>(opts, &mut rep);
+            adapters::<V2, Ffi>(opts, &mut rep);
+            adapters::<V3, Ffi>(opts, &mut rep);
+            adapters::<V4, Ffi>(opts, &mut rep);
+            adapters::<V3Lc, Rc>(opts, &mut rep);
+            adapters::<V4Na, Rc>(opts, &mut rep);
+        }
+        #[cfg(not(feature = "ffi"))]
+        {
+            adapters::<V2, Rc>(opts, &mut rep);
+            adapters::<V4, Rc>(opts, &mut rep);
+        }
+    }
+    if !opts.wants_part("encoder") {
+        rep.finish(opts);
+        return;
+    }
     let mut idx = 0u64;
     let mut table: HashMap<Vec<u8>, Vec<Vec<u8>>> = HashMap::new();
     // (1) systematic: piece counts 0..8 x fragment counts 0..4 x fragment lengths
@@ -203,6 +292,6 @@ pub fn run(opts: &Opts) {
         "rule",
         json!("piece counts 0..8 (monomorphised) x 0..4 fragments per piece x fragment lengths {0,1,7,8,9,63,64,65,255,256,600} x contents {zeros, bytes shaped like LE64 lengths, ff, random}, plus random lists and boundary-shifted / piece-dropped variants with identical concatenation; oracle = independent encoder over whole pieces, independent decoder, and a table of all encodings seen (two different piece lists must never collide); a recording WriteBytes must receive the same byte sequence as a Vec; distinct = distinct (fragment shape, piece contents)"),
     );
-    rep.set("not_observable_here", json!(["the private digest/MAC adapters of the backends are exercised through C03 (tags and signatures over multi-fragment headers, empty and long pieces)"]));
+    rep.set("adapters", json!("the private digest/MAC/stream-verifier adapters of all six backends are observed through the tag / signature: message, footer and assertion lengths from {0,1,7,8,9,63,64,65,127,128,129,255,256,257,600,5000}, local tokens compared byte for byte with the reference (independent PAE), signatures verified by an independent verifier over the independent PAE"));
     rep.finish(opts);
 }
